@@ -530,7 +530,7 @@ class Mode:
 
 
 PURE_BUILTINS = {"hex", "getattr", "len", "isinstance", "id", "hasattr", "bool", "tuple", "frozenset", "min", "max", "abs", "callable", "type", "iter", "int"}
-SPEC_FUNCS = {"tagall", "flat", "oldfield", "called", "listof", "intof", "after", "values", "entry", "implies", "old", "call", "call2", "all", "any", "no_dups", "seq", "setof", "filt", "addall", "cat", "forall", "exists",
+SPEC_FUNCS = {"all_in", "tagall", "flat", "oldfield", "called", "listof", "intof", "after", "values", "entry", "implies", "old", "call", "call2", "all", "any", "no_dups", "seq", "setof", "filt", "addall", "cat", "forall", "exists",
               "is_tuple", "ite", "fresh", "contents", "keys", "dget", "dhas", "rng", "idof", "rev", "prefix", "isinst", "truth",
               "subseq_of", "perm", "count", "sorted_by", "index", "pair", "slice_adj", "typeis", "allocated", "ghost"}
 
@@ -1474,6 +1474,13 @@ def _patch_engine():
         a, b = [self.to_v(self.pev(x, st, m)) for x in node.args]
         return SV("v", L.sbox(L.app(L.app(L.sempty, a), b)), "tupleval")
     E.sf_pair = sf_pair
+
+    def sf_all_in(self, node, st, m):
+        """all_in(S, p): every element of the sequence p is a member of the set S (predicate chain_in with an induction axiom)"""
+        S = self.as_set(self.pev(node.args[0], st, m), st)
+        p = self.as_seq(self.pev(node.args[1], st, m), st)
+        return sv_bool(L.chain_in(S, p))
+    E.sf_all_in = sf_all_in
 
     def sf_tagall(self, node, st, m):
         """tagall(tag, s) = [pair(tag, x) for x in s]"""
@@ -2725,6 +2732,7 @@ def _patch_loops():
     E.inv_clauses = inv_clauses
 
     def check_inv(self, k_ord, st, binds, node, tag):
+        binds = dict(st.ghost.get("$outer_idx", {}), **binds)      # indices of the enclosing for loops: _i<ordinal>
         binds = dict(binds, **{"$entry": SV("py", py=st.ghost.get(f"$loop{k_ord}_entry", self.st0))})
         m = Mode(True, self.st0, None, None, dict(binds, out=SV("seq", st.out)) if st.out is not None else binds)
         for i, cl in enumerate(self.inv_clauses(k_ord)):
@@ -2733,6 +2741,7 @@ def _patch_loops():
     E.check_inv = check_inv
 
     def assume_inv(self, k_ord, st, binds):
+        binds = dict(st.ghost.get("$outer_idx", {}), **binds)
         binds = dict(binds, **{"$entry": SV("py", py=st.ghost.get(f"$loop{k_ord}_entry", self.st0))})
         m = Mode(True, self.st0, None, None, dict(binds, out=SV("seq", st.out)) if st.out is not None else binds)
         fs = [self.truth(self.pev(ast.parse(cl, mode="eval").body, st, m), st) for cl in self.inv_clauses(k_ord)]
@@ -2780,7 +2789,8 @@ def _patch_loops():
                 exit_path(sth.assume(i == n))
             # body
             sb = sth.assume(i < n)
-            sb = sb.copy(notes=sb.notes + (f"loop{k_ord}:body",))
+            sb = sb.copy(notes=sb.notes + (f"loop{k_ord}:body",),
+                         ghost=dict(sth.ghost, **{"$outer_idx": dict(sth.ghost.get("$outer_idx", {}), **{f"_i{k_ord}": SV("int", i, "nonneg")})}))
             if seq is not None:
                 if any("prefix(" in cl for cl in self.inv_clauses(k_ord)):
                     # snoc step of the iterated prefix (instance of a true lemma; only sent when an invariant speaks of prefixes)
